@@ -206,6 +206,13 @@ def run_c17(ctx):
     rng = random.Random(ctx.seed)
     if ctx.replay_only is not None:
         cases = [d["case"] for d in ctx.replay_only if "case" in d]
+        # blame needs the one-attempt programs of every attempt that occurs in a replayed sequence
+        have = {mkey(c["muts"][0]) for c in cases if len(c["muts"]) == 1}
+        for c in list(cases):
+            for m in c["muts"]:
+                if len(c["muts"]) > 1 and mkey(m) not in have and m["tgt"] != "x":
+                    have.add(mkey(m))
+                    cases.append(dict(c, muts=[m], algo=None, cls="replay-single"))
     else:
         cases = scopes_cases(ctx)
         ctx.exhaustive = True
@@ -257,11 +264,13 @@ def run_c17(ctx):
                     probs.append(("concurrent", view(d["obs"]) or d["obs"]))
                     break
         # model-drift diagnostics (never a verdict): the code-shaped model's prediction
-        predicted = c["algo"] != c["expect"]
-        n_pred += predicted
         seq_leak = any(k.startswith("order=P1") for k, _ in probs)
+        predicted = c["algo"] != c["expect"] if c["algo"] is not None else seq_leak
+        n_pred += predicted
         n_repro += predicted and seq_leak
-        if (predicted != seq_leak) or (c["p1err"] != p1_failed) or \
+        if c["algo"] is None:
+            pass
+        elif (predicted != seq_leak) or (c["p1err"] != p1_failed) or \
                 (seq_leak and view(o["after"]) and view(o["after"]).get("values") != c["algo"]):
             n_drift += 1
             if n_drift <= 3:
@@ -561,9 +570,14 @@ def run_c38(ctx):
     ]
     if ctx.replay_only is not None:
         cases = [d["case"] for d in ctx.replay_only if "case" in d]
+        if any(len(c["prog"]) > 1 for c in cases):      # blame needs the single-instance files
+            want = {fi_key(fi) for c in cases for fi in c["prog"]}
+            have = {fi_key(c["prog"][0]) for c in cases if len(c["prog"]) == 1}
+            cases += [c for c in vlib.tlc(ctx, "AspFormat", "GEN_AspFormat_1.cfg", workers=8, timeout=1500, java_opts=JOPTS).cases
+                      if fi_key(c["prog"][0]) in want - have]
     else:
         with ThreadPoolExecutor(max_workers=2) as ex:
-            futs = [ex.submit(vlib.tlc, ctx, "AspFormat", "MC_AspFormat_fixed.cfg", workers=6, timeout=1500, java_opts=JOPTS),
+            futs = [ex.submit(vlib.tlc, ctx, "AspFormat", "MC_AspFormat_fixed.cfg" if ctx.quick else "MC_AspFormat_fixed_t.cfg", workers=6, timeout=1500, java_opts=JOPTS),
                     ex.submit(vlib.tlc, ctx, "AspFormat", "MC_AspFormat_known.cfg", workers=2, timeout=1500, java_opts=JOPTS,
                               allow_violation=True)]
             cases = vlib.tlc(ctx, "AspFormat", "GEN_AspFormat_q.cfg" if ctx.quick else "GEN_AspFormat_t.cfg", workers=8,
@@ -571,7 +585,7 @@ def run_c38(ctx):
             fixed, known = [f.result() for f in futs]
         if known.invariant is None:
             ctx.drift("MC_AspFormat_known.cfg: the code-shaped formatter model no longer violates FormatSound")
-        ctx.extra["design_level"] = {"MC_AspFormat_fixed.cfg": "holds", "MC_AspFormat_known.cfg": "violated: %s" % known.invariant}
+        ctx.extra["design_level"] = {"MC_AspFormat_fixed%s.cfg" % ("" if ctx.quick else "_t"): "holds", "MC_AspFormat_known.cfg": "violated: %s" % known.invariant}
         ctx.exhaustive = True
     for i, c in enumerate(cases):
         c["id"] = i
@@ -583,6 +597,7 @@ def run_c38(ctx):
     bad = {}
     stats = dict(format_refused=0, changed_by_formatter=0, model_drift_cases=0)
     refused = {}
+    mismatches = []
     for c in cases:
         o = obs.get(c["id"])
         if o is None:
@@ -592,8 +607,8 @@ def run_c38(ctx):
             raise vlib.Infra("asp rejects a generated file the spec calls acceptable (spec/rendering error): %s\n%s"
                              % (o["before"]["err"][:300], o["src"]))
         why = check_expect(c, o)
-        if why:
-            raise vlib.Infra("asp and the spec's Meaning disagree on an unformatted file (spec/rendering error): %s\n%s" % (why, o["src"]))
+        if why:     # judged after the verdicts: the property relates asp-before to asp-after, whatever the spec expected
+            mismatches.append("%s\n%s" % (why, o["src"]))
         ctx.programs += 1
         changed = o.get("formatted") != o["src"]
         stats["changed_by_formatter"] += changed
@@ -635,5 +650,10 @@ def run_c38(ctx):
             ctx.violation("C38 %s feature=%s" % (kind, feat_class(c["prog"][0])), detail)
         else:
             ctx.violation("C38 %s combination=%s" % (kind, " + ".join(feat_class(fi) for fi in c["prog"])), detail)
+    if mismatches and not ctx.violations:
+        raise vlib.Infra("asp and the spec's Meaning disagree on %d unformatted file(s) and formatting changed nothing observable "
+                         "(spec/rendering error, or asp's semantics moved: see C16); first: %s" % (len(mismatches), mismatches[0]))
+    for m in mismatches[:3]:
+        ctx.drift("asp's reading of an unformatted file differs from AspFormat's Meaning: " + m.replace("\n", " | ")[:300])
     ctx.traces_validated = len(cases)
-    ctx.extra.update(stats, files=len(cases), files_with_violation=len(bad), format_refused_classes=refused)
+    ctx.extra.update(stats, spec_meaning_mismatches=len(mismatches), files=len(cases), files_with_violation=len(bad), format_refused_classes=refused)
